@@ -213,7 +213,22 @@ def run(prop, root=None):
     corpus = corpus_variants(prop, root)
     with mp.Pool(min(16, os.cpu_count() or 4)) as pool:
         cres = pool.map(_evaluate_overlay, [(prop, ov, root) for _, _, ov in corpus], chunksize=1) if corpus else []
+    # behaviour-preserving single-site rewrites computed on the AST (sa.equivgen): none may be reported as a violation
+    from . import equivgen
+    ev = equivgen.all_variants(root=root)
+    with mp.Pool(min(16, os.cpu_count() or 4)) as pool:
+        eres = pool.map(_evaluate, [(prop, rel, new, root) for _, _, rel, new in ev], chunksize=4) if ev else []
     failures = []
+    ne0 = ne2 = 0
+    for (kind, label, rel, _), (rc, detail) in zip(ev, eres):
+        if rc == 1:
+            failures.append(f'behaviour-preserving rewrite reported as a violation [{kind}] {label[:120]} {detail}')
+        elif rc == 2:
+            ne2 += 1
+        else:
+            ne0 += 1
+    print(f'{prop} rewrites: {len(ev)} behaviour-preserving single-site rewrites (rename, if/else swap, mirrored comparison, folded negation, '
+          f'return temporary, guard/else): {ne0} silent, {ne2} not recognised (exit 2), {len(ev) - ne0 - ne2} reported')
     nb = nt = 0
     ncb = nct = nct2 = 0
     for (kind, label, _), (rc, detail) in zip(corpus, cres):
@@ -246,7 +261,9 @@ def run(prop, root=None):
     STATS.clear()
     STATS.update({'seeded_breaks_reported': nb, 'benign_twins_silent': nt, 'seeds_not_applicable': missing, 'seeds_total': total,
                   'independent_seeded_changes_reported': ncb, 'independent_benign_refactorings_silent': nct,
-                  'independent_benign_refactorings_unrecognised_exit2': nct2, 'failures': failures[:20]})
+                  'independent_benign_refactorings_unrecognised_exit2': nct2,
+                  'equivalent_rewrites_total': len(ev), 'equivalent_rewrites_silent': ne0, 'equivalent_rewrites_unrecognised_exit2': ne2,
+                  'failures': failures[:20]})
     if total and missing * 2 > total:
         print(f'ANALYSIS-ERROR property={prop} selftest: more than half of the seeds no longer apply')
         return 2
